@@ -88,7 +88,7 @@ def gen_problem(rng, max_q=5, max_cuts=2, allow_big=True, moves=False, idle_ok=T
             "obs": obs, "idle": idle, "part": [part.get(q) for q in range(nq)]}
 
 
-def gen_chain_problem(rng):
+def gen_chain_problem(rng, force=None):
     """three or four partitions in a chain; the partition holding qubit 0 takes no part in cut 0 but in a later cut, and the cut
     gates belong to different families (so that the order of the joint basis list matters)"""
     npart = rng.randint(3, 4)
@@ -102,6 +102,9 @@ def gen_chain_problem(rng):
         q += sz
     fams = [{"name": "cx"}, {"name": "rzz", "params": [0.7]}, {"name": "crx", "params": [1.1]}, {"name": "cz"}, {"name": "ryy", "params": [-0.4]}]
     rng.shuffle(fams)
+    if force is not None:
+        # the first link is a gate of the given family at a whole-turn-plus angle
+        fams.insert(0, {"name": force, "params": [rng.choice([1, -1]) * (2 * math.pi * rng.choice([1, 3]) + rng.choice([0.7, 1.9, math.pi / 2]))]})
     instrs = []
     for q_ in range(nq):
         instrs.append(gen.rand_1q(rng, q_))
@@ -109,7 +112,7 @@ def gen_chain_problem(rng):
     links = [(k, k + 1) for k in range(npart - 1)][::-1]
     for j, (a, b) in enumerate(links):
         g = dict(fams[j % len(fams)])
-        if "params" in g and rng.random() < 0.5:
+        if "params" in g and rng.random() < 0.5 and not (force is not None and j == 0):
             # whole-turn and multi-turn angles (the half-angle decompositions are 4*pi-periodic for the controlled rotations)
             g["params"] = [rng.choice([1, -1]) * (2 * math.pi * rng.randint(1, 3) + rng.choice([0.0, 0.7, 1.9, math.pi / 2, math.pi]))]
         g["qubits"] = [rng.choice(groups[a]), rng.choice(groups[b])]
